@@ -294,15 +294,15 @@ namespace occa {
       const char *end = fp.start;
       while (pos < end) {
         if (*pos == '\\') {
-          if (fp.start[1] == '\n') {
-            fp.lineStart = fp.start + 2;
+          if (pos[1] == '\n') {
+            fp.lineStart = pos + 2;
             ++fp.line;
           }
           pos += 1 + (pos[1] != '\0');
           continue;
         }
         if (*pos == '\n') {
-          fp.lineStart = fp.start + 1;
+          fp.lineStart = pos + 1;
           ++fp.line;
         }
         ++pos;
